@@ -220,6 +220,11 @@ pub enum Item {
     KittyImage { id: u32, placement: Option<u32>, error: Option<String>, extra_keys: bool },
     SizePair { cells: (u32, u32), pixels: (u32, u32) },
     Paste(String),
+    /// the CSI introducer followed by parameter bytes (digits and `;`) and then a character
+    /// that no control sequence can contain (a non-ASCII scalar value): the longer match fails,
+    /// the introducer is the alt+[ key (ambiguity resolved in favour of the key) and every byte
+    /// behind it is interpreted afresh, in order
+    CsiAbandoned { params: String, killer: char },
 }
 
 fn hex(s: &str, upper: bool) -> String {
@@ -266,6 +271,7 @@ impl Item {
             Item::KittyImage { .. } => "kitty-image",
             Item::SizePair { .. } => "size",
             Item::Paste(_) => "paste",
+            Item::CsiAbandoned { .. } => "abandoned-csi",
         }
     }
 
@@ -278,6 +284,12 @@ impl Item {
                 out.extend(b"\x1b[200~");
                 out.extend(s.as_bytes());
                 out.extend(b"\x1b[201~");
+            }
+            Item::CsiAbandoned { params, killer } => {
+                out.extend(b"\x1b[");
+                out.extend(params.as_bytes());
+                let mut buf = [0u8; 4];
+                out.extend(killer.encode_utf8(&mut buf).as_bytes());
             }
             Item::Mouse { code, x, y, press } => out.extend(
                 format!("\x1b[<{code};{x};{y}{}", if *press { 'M' } else { 'm' }).as_bytes(),
@@ -393,6 +405,13 @@ impl Item {
                 }
             }
             Item::Paste(s) => out.push(TerminalEvent::Paste(s.clone())),
+            Item::CsiAbandoned { params, killer } => {
+                let k = table.iter().find(|k| k.bytes == b"\x1b[").expect("table names the bare CSI introducer");
+                out.push(TerminalEvent::Key(Key::new(k.name.to_lib(), mods_to_lib(k.mods))));
+                for c in params.chars().chain(std::iter::once(*killer)) {
+                    out.push(TerminalEvent::Key(KeyName::Char(c).into()));
+                }
+            }
             Item::Mouse { code, x, y, press } => {
                 let b = *code as usize;
                 // pinned naming table of the library for button codes
@@ -610,6 +629,8 @@ pub fn item_strategy(table_len: usize) -> BoxedStrategy<Item> {
             .prop_map(|(id, placement, error, extra_keys)| Item::KittyImage { id, placement, error, extra_keys }),
         1 => ((coord(), coord()), (coord(), coord())).prop_map(|(cells, pixels)| Item::SizePair { cells, pixels }),
         2 => proptest::collection::vec(prop_oneof![4 => text_char(), 1 => Just('\n'), 1 => Just('\t'), 1 => Just('\u{7}')], 0..12).prop_map(|v| Item::Paste(v.into_iter().collect())),
+        2 => ("[0-9;]{0,6}", proptest::sample::select(vec!['\u{e9}', '\u{416}', '\u{4e16}', '\u{1f929}', '\u{80}', '\u{10ffff}']))
+            .prop_map(|(params, killer)| Item::CsiAbandoned { params, killer }),
     ]
     .boxed()
 }
